@@ -154,6 +154,7 @@ type edgeState struct {
 
 type FnCtx struct {
 	eng      *Engine
+	unboxed  map[string]Val
 	fn       *ssa.Function
 	fc       *FuncContract
 	name     string
